@@ -166,4 +166,135 @@ theorem parseProgramLoop_step {f : Nat} {st st1 : PState} {acc : NList} {n : Nod
   conv => lhs; unfold parseProgramLoop
   simp [bind_apply, h0, h1, h]
 
+/-! ### postfix, control, builtins -/
+
+@[simp] theorem pd_control (f : Nat) : prefixDispatch s (f + 1) .parseControlExpression = parseControlExpression := rfl
+@[simp] theorem pd_builtin (f : Nat) : prefixDispatch s (f + 1) .parseBuiltin = parseBuiltin s f := rfl
+@[simp] theorem pd_func (f : Nat) : prefixDispatch s (f + 1) .parseFunctionLiteral = parseFunctionLiteral s f := rfl
+@[simp] theorem pd_if (f : Nat) : prefixDispatch s (f + 1) .parseIfExpression = parseIfExpression s f := rfl
+@[simp] theorem pd_for (f : Nat) : prefixDispatch s (f + 1) .parseForExpression = parseForExpression s f := rfl
+
+theorem parseControlExpression_ok (st : PState) : parseControlExpression st = .ok (some (.control st.cur.tk), st) := rfl
+
+theorem parseIdentifier_post {st : PState} (h : lookup postfixRegs st.peek.type = some .parsePostfixExpression) :
+    parseIdentifier s st = .ok (some (.post st.peek.tk st.cur.tk), advance s st) := by
+  unfold parseIdentifier parsePostfixExpression
+  simp [bind_apply, h]
+
+theorem parseBuiltin_ok {f : Nat} {st st1 : PState} {el : NList} (h0 : st.peek.type = .LPAREN)
+    (h : parseExpressionList s f .RPAREN (advance s st) = .ok (some el, st1)) :
+    parseBuiltin s (f + 1) st = .ok (some (.builtin st.cur.tk el), st1) := by
+  unfold parseBuiltin
+  simp [bind_apply, expectPeek_ok h0, h]
+
+/-! ### blocks and return -/
+
+theorem parseBlockStatement_eq (f : Nat) (st : PState) :
+    parseBlockStatement s (f + 1) st = parseBlockLoop s f [] (advance s st) := by
+  conv => lhs; unfold parseBlockStatement
+  simp [bind_apply]
+
+theorem parseBlockLoop_stop {f : Nat} {st : PState} {acc : NList} (h : st.cur.type = .RBRACE) :
+    parseBlockLoop s (f + 1) acc st = .ok (some acc, st) := by
+  unfold parseBlockLoop
+  simp [bind_apply, h]
+
+theorem parseBlockLoop_step {f : Nat} {st st1 : PState} {acc : NList} {stmt : ONode}
+    (h0 : st.cur.type ≠ .RBRACE) (h1 : st.cur.type ≠ .EOF) (h2 : st.cur.type ≠ .EOL)
+    (h : parseStatement s f st = .ok (stmt, st1)) :
+    parseBlockLoop s (f + 1) acc st = parseBlockLoop s f (acc ++ [stmt]) (advance s st1) := by
+  conv => lhs; unfold parseBlockLoop
+  simp [bind_apply, h0, h1, h2, h]
+
+theorem parseStatement_ret {f : Nat} {st : PState} (h : st.cur.type = .RETURN) :
+    parseStatement s (f + 1) st = parseReturnStatement s f st := by
+  conv => lhs; unfold parseStatement
+  simp [bind_apply, h]
+
+theorem parseReturnStatement_bare {f : Nat} {st : PState}
+    (h : st.peek.type = .SEMICOLON ∨ st.peek.type = .RBRACE ∨ st.peek.type = .EOF ∨ st.peek.type = .EOL) :
+    parseReturnStatement s (f + 1) st = .ok (some (.ret st.cur.tk none), st) := by
+  unfold parseReturnStatement
+  rcases h with h | h | h | h <;> simp [bind_apply, h]
+
+theorem parseReturnStatement_value {f : Nat} {st st1 : PState} {v : ONode}
+    (h0 : st.peek.type ≠ .SEMICOLON ∧ st.peek.type ≠ .RBRACE ∧ st.peek.type ≠ .EOF ∧ st.peek.type ≠ .EOL)
+    (h : parseExpression s f prioLOWEST (advance s st) = .ok (v, st1)) (hp : st1.peek.type ≠ .SEMICOLON) :
+    parseReturnStatement s (f + 1) st = .ok (some (.ret st.cur.tk v), st1) := by
+  unfold parseReturnStatement
+  simp [bind_apply, h0.1, h0.2.1, h0.2.2.1, h0.2.2.2, h, hp]
+
+/-! ### function literals, `for`, `if` -/
+
+theorem parseFunctionParametersLoop_stop {f : Nat} {st : PState} {acc : NList} (h : st.peek.type ≠ .COMMA) :
+    parseFunctionParametersLoop s (f + 1) acc st = .ok (acc, st) := by
+  unfold parseFunctionParametersLoop
+  simp [bind_apply, h]
+
+theorem parseFunctionParametersLoop_step {f : Nat} {st : PState} {acc : NList} (h : st.peek.type = .COMMA) :
+    parseFunctionParametersLoop s (f + 1) acc st =
+      parseFunctionParametersLoop s f (acc ++ [some (.ident (advance s (advance s st)).cur.tk)]) (advance s (advance s st)) := by
+  conv => lhs; unfold parseFunctionParametersLoop
+  simp [bind_apply, h]
+
+theorem parseFunctionParameters_empty {f : Nat} {st : PState} (h : st.peek.type = .RPAREN) :
+    parseFunctionParameters s f st = .ok (([], false), advance s st) := by
+  unfold parseFunctionParameters
+  simp [bind_apply, h]
+
+theorem parseFunctionParameters_ok {f : Nat} {st st1 : PState} {ids : NList} (h0 : st.peek.type ≠ .RPAREN)
+    (h : parseFunctionParametersLoop s f [some (.ident st.peek.tk)] (advance s st) = .ok (ids, st1))
+    (hp : st1.peek.type = .RPAREN) :
+    parseFunctionParameters s f st = .ok ((ids, decide (st1.cur.type = .DOTDOT)), advance s st1) := by
+  unfold parseFunctionParameters
+  simp [bind_apply, h0, h, expectPeek_ok hp]
+
+theorem parseFunctionLiteral_anon {f : Nat} {st st1 st2 : PState} {params : NList} {variadic : Bool} {body : Stmts}
+    (h0 : st.peek.type = .LPAREN) (h1 : parseFunctionParameters s f (advance s st) = .ok ((params, variadic), st1))
+    (h2 : st1.peek.type = .LBRACE) (h3 : parseBlockStatement s f (advance s st1) = .ok (body, st2)) (h4 : st2.cont = false) :
+    parseFunctionLiteral s (f + 1) st = .ok (some (.func st.cur.tk none params body variadic false), st2) := by
+  unfold parseFunctionLiteral
+  have hn : st.peek.type ≠ .IDENT := by rw [h0]; decide
+  simp [bind_apply, hn, expectPeek_ok h0, h1, expectPeek_ok h2, h3, h4]
+
+theorem parseFunctionLiteral_named {f : Nat} {st st1 st2 : PState} {params : NList} {variadic : Bool} {body : Stmts}
+    (hn : st.peek.type = .IDENT) (h0 : (advance s st).peek.type = .LPAREN)
+    (h1 : parseFunctionParameters s f (advance s (advance s st)) = .ok ((params, variadic), st1))
+    (h2 : st1.peek.type = .LBRACE) (h3 : parseBlockStatement s f (advance s st1) = .ok (body, st2)) (h4 : st2.cont = false) :
+    parseFunctionLiteral s (f + 1) st = .ok (some (.func st.cur.tk (some st.peek.tk) params body variadic false), st2) := by
+  unfold parseFunctionLiteral
+  simp [bind_apply, hn, expectPeek_ok h0, h1, expectPeek_ok h2, h3, h4]
+
+theorem parseForExpression_ok {f : Nat} {st st1 st2 : PState} {cond : ONode} {body : Stmts}
+    (h1 : parseExpression s f prioLOWEST (advance s st) = .ok (cond, st1)) (h2 : st1.peek.type = .LBRACE)
+    (h3 : parseBlockStatement s f (advance s st1) = .ok (body, st2)) (h4 : st2.cont = false) :
+    parseForExpression s (f + 1) st = .ok (some (.forE st.cur.tk cond body), st2) := by
+  unfold parseForExpression
+  simp [bind_apply, h1, expectPeek_ok h2, h3, h4]
+
+theorem parseIfExpression_noelse {f : Nat} {st st1 st2 : PState} {cond : ONode} {cons : Stmts}
+    (h1 : parseExpression s f prioLOWEST (advance s st) = .ok (cond, st1)) (h2 : st1.peek.type = .LBRACE)
+    (h3 : parseBlockStatement s f (advance s st1) = .ok (cons, st2)) (h4 : st2.cont = false) (h5 : st2.peek.type ≠ .ELSE) :
+    parseIfExpression s (f + 1) st = .ok (some (.ifE st.cur.tk cond cons none), st2) := by
+  unfold parseIfExpression
+  simp [bind_apply, h1, expectPeek_ok h2, h3, h4, h5]
+
+theorem parseIfExpression_else {f : Nat} {st st1 st2 st3 : PState} {cond : ONode} {cons alt : Stmts}
+    (h1 : parseExpression s f prioLOWEST (advance s st) = .ok (cond, st1)) (h2 : st1.peek.type = .LBRACE)
+    (h3 : parseBlockStatement s f (advance s st1) = .ok (cons, st2)) (h4 : st2.cont = false) (h5 : st2.peek.type = .ELSE)
+    (h6 : (advance s st2).peek.type = .LBRACE) (h7 : parseBlockStatement s f (advance s (advance s st2)) = .ok (alt, st3))
+    (h8 : st3.cont = false) :
+    parseIfExpression s (f + 1) st = .ok (some (.ifE st.cur.tk cond cons alt), st3) := by
+  conv => lhs; unfold parseIfExpression
+  have hn : (advance s st2).peek.type ≠ .IF := by rw [h6]; decide
+  simp [bind_apply, h1, expectPeek_ok h2, h3, h4, h5, hn, expectPeek_ok h6, h7, h8]
+
+theorem parseIfExpression_elseif {f : Nat} {st st1 st2 st3 : PState} {cond altN : ONode} {cons : Stmts}
+    (h1 : parseExpression s f prioLOWEST (advance s st) = .ok (cond, st1)) (h2 : st1.peek.type = .LBRACE)
+    (h3 : parseBlockStatement s f (advance s st1) = .ok (cons, st2)) (h4 : st2.cont = false) (h5 : st2.peek.type = .ELSE)
+    (h6 : (advance s st2).peek.type = .IF) (h7 : parseIfExpression s f (advance s (advance s st2)) = .ok (altN, st3)) :
+    parseIfExpression s (f + 1) st = .ok (some (.ifE st.cur.tk cond cons (some [altN])), st3) := by
+  conv => lhs; unfold parseIfExpression
+  simp [bind_apply, h1, expectPeek_ok h2, h3, h4, h5, h6, h7]
+
 end Grol.RT
